@@ -131,12 +131,10 @@ def evaluate(ctx, cases):
                 p = built["ok"]
             else:
                 p = JSONPatch(unicode_escape=not noesc)
-                if kind == "test":
-                    p.test(target, copy.deepcopy(obj))
-                elif kind == "replace":
-                    p.replace(target, {"new": True})
-                else:
-                    p.remove(target)
+                built = core.outcome(lambda: p.test(target, copy.deepcopy(obj)) if kind == "test" else p.replace(target, {"new": True}) if kind == "replace" else p.remove(target))
+                if "err" in built:
+                    ctx.violation("a patch operation addressed by a match's pointer (object or text) must build", {**where, "form": form}, built["err"], "a patch")
+                    continue
             o = core.outcome(lambda: p.apply(copy.deepcopy(doc)))
             impl = {"ok": core.canon(o["ok"])} if "ok" in o else {"err": o["err"]}
             if form == "pointer-object" and impl != m["result"]:
